@@ -297,7 +297,7 @@ def run(tier: str, seed: int) -> int:
     r.assumptions = ["graphql-core coerce_input_value / default_value are the model of the schema's input coercion"]
     r.floors = {"constructions": 500, "required_removals": 100, "defaults_read_back": 100, "defaults_seen_by_server": 100}
     n = 1500 if tier == "thorough" else 400
-    name_classes = [[], ["schema.extend"], [], ["enum.keyword_value"], ["names.keyword"], [], ["names.pydantic_attr"], ["enum.keyword_value", "names.keyword"], ["names.leading_underscore"], ["names.soft_keyword"]]
+    name_classes = [[], ["schema.extend"], ["wrap.deep"], ["enum.keyword_value"], ["names.keyword"], [], ["names.pydantic_attr"], ["enum.keyword_value", "names.keyword"], ["names.leading_underscore"], ["names.soft_keyword"]]
     cases = [cw.make_case(seed, i, dirty=name_classes[i % len(name_classes)], tier=tier) for i in range(n)]
 
     def on_result(case, res):
